@@ -20,6 +20,10 @@ pub struct Scn {
     pub conns: Vec<Conn>,
     pub order: Vec<usize>,
     pub via_loop: bool,
+    /// fault (with `via_loop`, not for the TCP analyzer whose loop owns its tracker): the capture source ends
+    /// before these frame indices and the same instance is started again
+    #[serde(default)]
+    pub boundaries: Vec<usize>,
 }
 
 pub struct C07;
@@ -33,13 +37,13 @@ pub fn kinds_for(k: Kind, r: &mut Rng) -> ConnKind {
     }
 }
 
-fn run_trace(cfg: &SutCfg, trace: &[Timed], via_loop: bool) -> Result<Vec<sut::PktOut>, Violation> {
+fn run_trace(cfg: &SutCfg, trace: &[Timed], via_loop: bool, boundaries: &[usize]) -> Result<Vec<sut::PktOut>, Violation> {
     clock::arm(1_700_000_000_000);
     #[cfg(not(huginn_net_verif_sched))]
-    let r = if via_loop { sut::run_loop(cfg, trace) } else { sut::run_deliver(cfg, trace) };
+    let r = if via_loop { sut::run_loop_breaks(cfg, trace, boundaries) } else { sut::run_deliver(cfg, trace) };
     #[cfg(huginn_net_verif_sched)]
     let r = {
-        let _ = via_loop;
+        let _ = (via_loop, boundaries);
         sut::run_deliver(cfg, trace)
     };
     r.map_err(|e| Violation::new("harness-error", "", e))
@@ -115,7 +119,7 @@ impl Prop for C07 {
                     }
                 }
             }
-            return Scn { kind, cap: 2 * n + 16, conns, order, via_loop: false };
+            return Scn { kind, cap: 2 * n + 16, conns, order, via_loop: false, boundaries: vec![] };
         }
         let n = r.urange(2, 8);
         let v6 = r.chance(1, 5);
@@ -181,13 +185,18 @@ impl Prop for C07 {
                 }
             }
         }
-        Scn { kind, cap: 2 * conns.len() + 4 + r.usize_below(50), conns, order, via_loop: r.chance(1, 4) }
+        let via_loop = r.chance(1, 4);
+        let boundaries = if via_loop && kind != Kind::Tcp && r.chance(1, 3) { (0..r.urange(1, 2)).map(|_| r.usize_below(order.len() + 1)).collect() } else { vec![] };
+        Scn { kind, cap: 2 * conns.len() + 4 + r.usize_below(50), conns, order, via_loop, boundaries }
     }
 
     fn run(s: &Scn, st: &mut RunStats) -> Result<(), Violation> {
         let cfg = SutCfg::new(s.kind, s.cap);
         let trace = conn::to_trace(&s.conns, &s.order);
-        let outs = run_trace(&cfg, &trace, s.via_loop)?;
+        let outs = run_trace(&cfg, &trace, s.via_loop, &s.boundaries)?;
+        if s.via_loop && !s.boundaries.is_empty() {
+            st.fault("capture_source_ends_and_restarts");
+        }
         st.packets += trace.len() as u64;
         st.sim_ns += trace.last().map(|p| p.t).unwrap_or(0);
         let il = s.order.iter().fold(0u64, |h, c| crate::rng::mix64(h ^ *c as u64));
@@ -213,7 +222,7 @@ impl Prop for C07 {
             if iso.is_empty() {
                 continue;
             }
-            let iso_out = run_trace(&cfg, &iso, false)?;
+            let iso_out = run_trace(&cfg, &iso, false, &[])?;
             st.packets += iso.len() as u64;
             let mixed: Vec<&sut::PktOut> = trace.iter().zip(outs.iter()).filter(|(p, _)| p.conn == ci).map(|(_, o)| o).collect();
             let mut any = false;
@@ -325,9 +334,15 @@ impl Prop for C07 {
                 out.push(x);
             }
         }
+        if !s.boundaries.is_empty() {
+            let mut x = s.clone();
+            x.boundaries.clear();
+            out.push(x);
+        }
         if s.via_loop {
             let mut x = s.clone();
             x.via_loop = false;
+            x.boundaries.clear();
             out.push(x);
         }
         out
